@@ -110,7 +110,8 @@ def rand_options(rng, src):
     o["strategy"] = rng.choice([None, "always", "never", "update", "custom"])
     o["doc_sync"] = rng.choice([None, None, "bykey_fn", "bykey_regex", "update", "NO_SYNC", "COPY"])
     o["recursive"] = rng.random() < 0.5
-    o["exclude"] = rng.choice([None, None, r".*_excl\.log", [r"^b\."], r"a\.txt"])
+    # the last pattern also matches signac's own state point / document files, which are not data files
+    o["exclude"] = rng.choice([None, None, r".*_excl\.log", [r"^b\."], r"a\.txt", r".*\.json"])
     ids = sorted(src["jobs"])
     if ids and rng.random() < 0.3:
         o["selection"] = [rng.choice(["id", "job"]), rng.sample(ids, rng.randint(0, len(ids)))]
